@@ -239,6 +239,11 @@ def run(ctx: Ctx) -> None:
                         "keeps only the paths whose blob is present, so a blob wrongly reported absent leaves its path serving the previous value")
     n10 = S.memory_presence_by_membership(ctx, "C04.R10") + S.presence_ignores_size(ctx, v, "C04.R10")
     rep.floor("C04.R10", n10, 3)
+    from .c03 import store_paths_lexical as _spl
+    rep.rule("C04.R14", "as C08.R10 / C03.R8: a path object is turned into a store path by its lexical methods only (absolute / as_posix): `resolve`, `realpath`, `expanduser` ... ask the "
+                      "file system, and make the store path - and whether two paths overlap - depend on the symbolic links of the machine")
+    _n_spl = _spl(ctx, "C04.R14")
+    rep.floor("C04.R14", _n_spl, 1)
     rep.rule("C04.R11", "as C08.R13: a path has one spelling - kept through a pathlib.Path or through its text (with or without empty segments) it is the same entry of the store, so "
                         "that keeping it again replaces what every spelling serves")
     n11 = S.one_spelling_per_path(ctx, "C04.R11")
